@@ -424,7 +424,7 @@ func oracleC08(r *Result) ([]Violation, bool) {
 			last[e.I] = "D"
 		case "q":
 			for _, sn := range e.Snap {
-				if sn.InStop || sn.Cut || sn.Fine {
+				if sn.InStop || sn.Cut || sn.Fine || sn.Blocked { // Blocked: a transition is in progress under the election mutex (slow application callback)
 					continue
 				}
 				bal := sn.NProm - sn.NDem
